@@ -134,6 +134,13 @@ def dfcIter (rhoCb : α → α) (conc molarMass atol : α) (maxiter : Nat) : Nat
 def densityFromConcentrationWith (rhoCb : α → α) (conc molarMass atol rho0 : α) (maxiter : Nat) : Except String α :=
   dfcIter rhoCb conc molarMass atol maxiter (maxiter + 1) rho0 0
 
+/-- the whole function including the FIRST loop test `atol < abs(float("inf"))`: `entered` is that test (true for every finite `atol`; false for
+    `atol = inf` and `atol = nan`, where Python never enters the loop and returns the start value `1100 kg/m³` without calling `rho_cb`).
+    Over ℝ every `atol` is finite, so the theorems are about `densityFromConcentrationWith`; the driver computes `entered` in Float.
+    A negative `maxiter` behaves like 0 (the first pass raises NoConvergence). -/
+def densityFromConcentrationPy (entered : Bool) (rhoCb : α → α) (conc molarMass atol rho0 : α) (maxiter : Nat) : Except String α :=
+  if entered then densityFromConcentrationWith rhoCb conc molarMass atol rho0 maxiter else .ok rho0
+
 /-- all defaults (`rho_cb = sulfuric_acid_density`, `atol`, `molar_mass`, start value, `maxiter` from the source) -/
 def densityFromConcentration (conc T : α) : Except String α :=
   densityFromConcentrationWith (fun w => sulfuricAcidDensity w T) conc (dfcInit_1 conc) (dfcInit_0 conc) (dfcInit_2 conc) dfcMaxiter
